@@ -536,8 +536,6 @@ func c39Run(c c39Case) (V, Verdict) {
 			verdict = v
 		}
 	}
-	// the recorded finding (known/C39.txt) is reported only when nothing else is wrong
-	var expiryFinding *Verdict
 	if expiredBefore {
 		fail(Fail("expired-certificate-accepted-by-new-peer-connection", fmt.Sprintf("certificates %v", c.Init.Certs)))
 	}
@@ -630,12 +628,7 @@ func c39Run(c c39Case) (V, Verdict) {
 			for _, x := range newCfg.Certificates {
 				namedExpired = namedExpired || c39Expired(x, time.Now())
 			}
-			// the expiry finding is kept apart so that it cannot hide another failure
-			failExpiry := func(v Verdict) {
-				if expiryFinding == nil {
-					expiryFinding = &v
-				}
-			}
+
 			attempt := ""
 			switch {
 			case newCfg.PeerIdentity != "" && newCfg.PeerIdentity != before.PeerIdentity:
@@ -658,7 +651,7 @@ func c39Run(c c39Case) (V, Verdict) {
 			if err != nil {
 				nRejected++
 				if d := c39Diff(before, after); d == "certificate-expiry" {
-					failExpiry(Fail("rejected-call-changed-certificate-expiry", fmt.Sprintf(
+					fail(Fail("rejected-call-changed-certificate-expiry", fmt.Sprintf(
 						"step %d: error %v but the stored certificates now expire %v instead of %v", k, err,
 						c39ExpiresList(after.Certificates), c39ExpiresList(before.Certificates))))
 				} else if d != "" {
@@ -673,7 +666,7 @@ func c39Run(c c39Case) (V, Verdict) {
 					}
 				}
 				if c39Diff(before, after) == "certificate-expiry" {
-					failExpiry(Fail("accepted-call-changed-certificate-expiry", fmt.Sprintf(
+					fail(Fail("accepted-call-changed-certificate-expiry", fmt.Sprintf(
 						"step %d: the stored certificates now expire %v instead of %v", k,
 						c39ExpiresList(after.Certificates), c39ExpiresList(before.Certificates))))
 				}
@@ -704,9 +697,6 @@ func c39Run(c c39Case) (V, Verdict) {
 		steps = VL{}
 	}
 	obs = append(obs, steps)
-	if verdict.OK && expiryFinding != nil {
-		return obs, *expiryFinding
-	}
 	if verdict.OK {
 		verdict.NonTrivial = nSet >= 1
 		verdict.Class = fmt.Sprintf("sets%d/rejected%d/accepted%d/phases%d", min(nSet, 4), min(nRejected, 3), min(nAccepted, 3), len(phases))
@@ -1058,13 +1048,15 @@ func init() {
 				// the zero Certificate{} has a zero Expires(): stored; no list is ever equal to it
 				{Init: c39Config{Servers: []c39Server{}, Certs: []int{3}}, Steps: []c39Step{
 					set(c39Config{Servers: []c39Server{}, Certs: []int{3}}), set(c39Config{Servers: []c39Server{}, Certs: []int{}, Policy: 1})}},
-				// WITNESSES (known/C39.txt): the stored certificate named through an object that reports
-				// another expiry, in a call that is rejected for its bundle policy / for an invalid ICE
-				// server / accepted: the stored certificate reports the argument's expiry afterwards
+				// WITNESSES of the repaired defect (known/C39.txt, fixed:): the stored certificate named
+				// through an object that reports another expiry, in a call that is rejected for its bundle
+				// policy / for an invalid ICE server / accepted: SetConfiguration used to store the
+				// argument's objects before its remaining checks; the stored expiry must stay
 				{Init: base, Steps: []c39Step{set(c39Config{Servers: []c39Server{}, Certs: []int{15}, Bundle: 3})}},
 				{Init: base, Steps: []c39Step{set(c39Config{Servers: []c39Server{{ID: 1, URLs: []int{0}}}, Certs: []int{15}})}},
 				{Init: base, Steps: []c39Step{set(c39Config{Servers: []c39Server{}, Certs: []int{15}})}},
-				// SetConfiguration accepts -- and stores -- a certificate that reports it has expired
+				// SetConfiguration accepts a certificate that reports it has expired (same key, same DER as
+				// the stored one) -- and used to store it
 				{Init: c39Config{Servers: []c39Server{}, Certs: []int{16}}, Steps: []c39Step{
 					set(c39Config{Servers: []c39Server{}, Certs: []int{12}})}},
 			}
